@@ -247,7 +247,9 @@ func (r *revisionSyncer) getRevisionFromLeader() (uint64, error) {
 	}
 
 	revision := &LeaderRevision{}
-	json.Unmarshal(responseBody, revision)
+	if err = json.Unmarshal(responseBody, revision); err != nil {
+		return 0, err
+	}
 	r.metricCli.EmitGauge("follower.get.revision", revision.Revision, metrics.Tag("leader", leaderAddress))
 	return revision.Revision, nil
 }
